@@ -243,6 +243,10 @@ def run(rep, facts, tier):
 
     # ------------------------------------------------------------ R03.7
     rule_03_7(rep, fx)
+    rule_03_9(rep, fx)
+    rule_03_11(rep, fx)
+    from rules import numberset as _ns
+    _ns.rule_from_base_and_set(rep, fx, 'R03.10')
 
     # ------------------------------------------------------------ R03.8 crossed roles (shared lint, rdv/swaplint.py)
     from rdv import swaplint
@@ -351,3 +355,146 @@ def rule_03_7(rep, fx):
             rep.check(ok, 'R03.7', '%s/acknack#%d/base' % (b.key, n), 'base from ack_base / first missing, or a constant under a predicate implying ack_base <= it',
                       '%s builds an ACKNACK whose base can be lower than one sent before (%s): the base decreases during a match and acknowledged samples are requested again' % (b.key, '; '.join(why)), b.where(bb, si))
     rep.floor('R03.7', n, 2, 'constructions of AckNack in rtps::reader')
+
+
+def rule_03_9(rep, fx):
+    """Added after the mutation campaign (selftest/mutation/C03.json): the request is really sent, partially received samples go to NACKFRAG and only those, the known-changes
+    window covers one-element intervals."""
+    rep.rule('R03.9', 'the request goes out: in the HEARTBEAT worker, from "missing list not empty" and from "final flag not set" every path to the return passes send_acknack_to; a '
+                      'sample is kept out of the ACKNACK set exactly when is_frag_partially_received() and is then put on the NACKFRAG list; every NACKFRAG built is pushed and the list '
+                      'is sent when not empty; missing_seqnums reads the known changes whenever the interval is not empty (begin <= end, one-element intervals included)')
+    hb = fx.find('rtps::reader::Reader::handle_heartbeat_msg')
+    ws = [c for c in fx.closures_of(hb, transitive=False) if any(callee_res(t).endswith('missing_seqnums') for _bb, t in c.calls())]
+    if len(ws) != 1:
+        raise CheckBroken('heartbeat worker closure not found (%d)' % len(ws))
+    w = ws[0]
+    rep.analysed(w)
+    og = Origins(w)
+    P = Pos(w)
+    edges = list(switch_edges(w, fx, og))
+    sends = [(bb, 'term') for bb, t in w.calls() if callee_res(t).endswith('send_acknack_to')]
+    need = [(s_, t_) for s_, t_, cond, lab in edges if (lab is False and cond[0] == 'call' and cond[1].endswith('::is_empty') and term_has(cond, lambda x: x[0] == 'call' and x[1].endswith('missing_seqnums')))
+            or (lab is False and cond[0] == 'field' and cond[1] == 'final_flag_set')]
+    ok = len(need) == 2 and bool(sends)
+    for s_, t_ in need:
+        for r in w.return_blocks():
+            if P.can_reach((t_, 0), (r, 'term'), avoid_pos=sends):
+                ok = False
+    rep.check(ok, 'R03.9', 'handle_heartbeat_msg/acknack-sent-when-needed', 'non-empty missing list => ACKNACK; final flag unset => ACKNACK',
+              'a HEARTBEAT can be processed with samples missing (or with the final flag unset) and no ACKNACK sent: the lowest missing sample is not requested', w.where())
+    # the filter that keeps partially received samples out of the ACKNACK set
+    fc = [c for c in fx.closures_of(w, transitive=False) if any(callee_res(t).endswith('is_frag_partially_received') for _bb, t in c.calls())]
+    okf = len(fc) == 1
+    if okf:
+        c = fc[0]
+        rep.analysed(c)
+        ogc = Origins(c)
+        Pc = Pos(c)
+        ce = list(switch_edges(c, fx, ogc))
+        t_edge = [(s_, t_) for s_, t_, cond, lab in ce if lab is True and cond[0] == 'call' and cond[1].endswith('is_frag_partially_received')]
+        f_edge = [(s_, t_) for s_, t_, cond, lab in ce if lab is False and cond[0] == 'call' and cond[1].endswith('is_frag_partially_received')]
+        pushes = [(bb, 'term') for bb, t in c.calls() if callee_res(t).endswith('::push')]
+        rets = {}
+        for bb, si, st in c.statements():
+            if st['s'] == 'assign' and st['lhs']['l'] == 0 and not st['lhs'].get('p') and st['rv']['r'] == 'use' and st['rv']['x'].get('o') == 'const':
+                rets[(bb, si)] = int(st['rv']['x']['k']['v'])
+        okf = len(t_edge) == 1 and len(f_edge) == 1 and bool(pushes) and len(rets) == 2
+        if okf:
+            for pos, v in rets.items():
+                via = t_edge if v == 0 else f_edge
+                okf = okf and Pc.every_path_passes(None, pos, via_edges=via, from_entry=True)
+            # the push is on the partially-received side, on every path
+            for r in c.return_blocks():
+                if Pc.can_reach((t_edge[0][1], 0), (r, 'term'), avoid_pos=pushes) or any(Pc.can_reach((f_edge[0][1], 0), p_) for p_ in pushes):
+                    okf = False
+            ogp = ogc.of_operand(c.blocks[pushes[0][0]]['term']['args'][1], pushes[0][0], 'term')
+            okf = okf and term_has(ogp, lambda x: x == ('param', 2))
+    rep.check(okf, 'R03.9', 'handle_heartbeat_msg/partial-filter', 'partially received => off the ACKNACK set and onto the NACKFRAG list; otherwise kept',
+              'the filter that separates partially received samples from the ACKNACK set has the wrong polarity or does not record them for NACKFRAG', w.where())
+    # NACKFRAG emission
+    np = [(bb, 'term') for bb, t in w.calls() if callee_res(t).endswith('::push') and 'NackFrag' in (w.locals[t['args'][1]['pl']['l']] if t['args'][1].get('o') in ('copy', 'move') else '')]
+    nfagg = [(bb, si) for bb, si, st in w.statements() if st['s'] == 'assign' and st['rv']['r'] == 'agg' and strip_generics(str(st['rv'].get('adt'))).endswith('nack_frag::NackFrag')]
+    sendnf = [(bb, 'term') for bb, t in w.calls() if callee_res(t).endswith('send_nackfrags_to')]
+    nonempty = [(s_, t_) for s_, t_, cond, lab in edges if lab is False and cond[0] == 'call' and cond[1].endswith('::is_empty') and not term_has(cond, lambda x: x[0] == 'call' and x[1].endswith('missing_seqnums'))]
+    okn = bool(np) and bool(nfagg) and bool(sendnf) and bool(nonempty)
+    heads = [(bb, 'term') for bb, t in w.calls() if callee_res(t).endswith('::next')]
+    for a in nfagg:
+        for g in heads + [(r, 'term') for r in w.return_blocks()]:
+            if P.can_reach(a, g, avoid_pos=np):
+                okn = False
+    for s_, t_ in nonempty:
+        for r in w.return_blocks():
+            if P.can_reach((t_, 0), (r, 'term'), avoid_pos=sendnf):
+                okn = False
+    rep.check(okn, 'R03.9', 'handle_heartbeat_msg/nackfrag-sent', 'every NACKFRAG built is pushed; a non-empty list is sent',
+              'a NACKFRAG that was built for a partially received sample is not pushed, or the non-empty list is not sent', w.where())
+    # missing_seqnums: the known-changes window
+    ms = fx.find('rtps::rtps_writer_proxy::RtpsWriterProxy::missing_seqnums')
+    rep.analysed(ms)
+    ogm = Origins(ms)
+    Pm = Pos(ms)
+    rng = [(bb, 'term') for bb, t in ms.calls() if callee_res(t).endswith('BTreeMap::<K, V, A>::range') or (callee_res(t).endswith('::range') and 'BTreeMap' in callee_res(t))]
+    g = [(s_, t_) for s_, t_, cond, lab in switch_edges(ms, fx, ogm) if lab is True and cond[0] == 'call' and cond[1].rsplit('::', 1)[-1] == 'le' and
+         'begin' in term_str(cond[2][0]) and 'end' in term_str(cond[2][1])]
+    g += [(s_, t_) for s_, t_, cond, lab in switch_edges(ms, fx, ogm) if lab is True and cond[0] == 'call' and cond[1].rsplit('::', 1)[-1] == 'ge' and
+          'end' in term_str(cond[2][0]) and 'begin' in term_str(cond[2][1])]
+    okm = len(rng) == 1 and bool(g) and Pm.every_path_passes(None, rng[0], via_edges=g, from_entry=True)
+    strict = [1 for s_, t_, cond, lab in switch_edges(ms, fx, ogm) if cond[0] == 'call' and cond[1].rsplit('::', 1)[-1] in ('lt', 'gt') and 'begin' in term_str(cond) and 'end' in term_str(cond)]
+    # a number is pushed both when no known change is left and when the next known change is a later one
+    pushes = [(bb, 'term') for bb, t in ms.calls() if callee_res(t).endswith('::push')]
+    loop_next = [(bb, 'term') for bb, t in ms.calls() if callee_res(t).endswith('::next') and 'SequenceNumberRange' in callee_res(t)]
+    # the two decisions: `known_head` is None (the inspected value comes from the iterator over the collected known changes), or it is Some(k) with k != s
+    dec = [(s_, t_) for s_, t_, cond, lab in switch_edges(ms, fx, ogm) if (lab == 'None' and cond[0] == 'discr' and term_has(cond, lambda x: x[0] == 'field' and x[1] == 'changes'))
+           or (lab is False and cond[0] == 'call' and cond[1].rsplit('::', 1)[-1] == 'eq' and term_has(cond, lambda x: x[0] == 'field' and x[1] == 'changes'))]
+    okp = len(pushes) >= 2 and bool(loop_next) and len(dec) >= 2
+    for s_, t_ in dec:
+        for g_ in loop_next + [(r, 'term') for r in ms.return_blocks()]:
+            if Pm.can_reach((t_, 0), g_, avoid_pos=pushes):
+                okp = False
+    rep.check(okp, 'R03.9', 'missing_seqnums/pushed-when-unknown', 'a scanned number is pushed when no known change is left and when the next known change is a later one',
+              'missing_seqnums can scan a number that is not among the known changes without listing it as missing', ms.where())
+    rep.check(okm and not strict, 'R03.9', 'missing_seqnums/known-window', 'changes.range(interval) is read under begin <= end',
+              'missing_seqnums reads the known changes only for intervals of two or more numbers (strict comparison): in a one-element interval a received sample is listed as missing', ms.where())
+
+
+def rule_03_11(rep, fx):
+    """advance_ack_base may only step over numbers that are known, one at a time, starting with ack_base itself."""
+    from rdv.sympath import SymPath
+    rep.rule('R03.11', 'advance_ack_base steps one number at a time over known changes starting at ack_base itself: on every path of one loop iteration that stores to ack_base, the '
+                       'iterated key was compared equal (True edge) to the counter value of the start of the iteration and the value stored is that counter + 1 (store-aware evaluation)')
+    b = fx.find('rtps::rtps_writer_proxy::RtpsWriterProxy::advance_ack_base')
+    rep.analysed(b)
+    sp = SymPath(b, fx)
+    stores = [(bb, si) for bb, si, st in b.statements() if st['s'] == 'assign' and (st['lhs'].get('p') or []) and isinstance(st['lhs']['p'][-1], dict) and st['lhs']['p'][-1].get('n') == 'ack_base']
+    bad = []
+    n_paths = 0
+    if not stores:
+        bad.append('no store to ack_base')
+    for sbb, ssi in stores:
+        for start in sp.starts():
+            for path in sp.paths(start, sbb):
+                st = sp.run(path, ssi + 1)
+                if st.infeasible:
+                    continue
+                n_paths += 1
+                mine = [x for x in st.stores if x[0] and x[0][-1] == ('f', 'ack_base') and (x[3], x[4]) == (sbb, ssi)]
+                if not mine:
+                    continue
+                new = mine[-1][2]
+                # new == add(W, new(1))
+                ok_inc = new[0] == 'call' and new[1].endswith('::add') and len(new[2]) == 2 and new[2][1][0] == 'call' and new[2][1][1].endswith('SequenceNumber::new') and new[2][1][2] == (('c', 1),)
+                W = new[2][0] if ok_inc else None
+                # the iterated key was compared equal to W on this path
+                eq_ok = False
+                for _tag, tbb, x, taken in st.trace:
+                    if x[0] == 'call' and x[1].endswith('::eq') and len(x[2]) == 2 and not (isinstance(taken, list) and taken == [0]):
+                        vals = [a[3] if a[0] == 'ref' and len(a) > 3 else a for a in x[2]]
+                        keyish = [v for v in vals if 'next' in str(v)]
+                        if W is not None and W in vals and keyish:
+                            eq_ok = True
+                # W is the counter of the start of this iteration (a cell / local not written earlier on this path), and it is ack_base or mirrors it
+                start_val = W is not None and (W[0] == 'init')
+                if not (ok_inc and eq_ok and start_val):
+                    bad.append('path %s stores %s (increment by one: %s, key == counter on the path: %s)' % (list(path)[:6], str(new)[:70], ok_inc, eq_ok))
+    rep.check(not bad and n_paths >= 1, 'R03.11', 'advance_ack_base/step', '%d path(s) to a store: key == counter, then counter + 1' % n_paths,
+              'advance_ack_base can move ack_base over a number that is not known (%s): the next ACKNACK acknowledges samples that were never received and never requests them' % '; '.join(bad[:2]), b.where())
